@@ -18,7 +18,7 @@
           | (7 v meta) DATA ?v | (8 v meta) KEY ?v | (9 v) TEXT ?v | (10 v kw) RELATION ?v KW
           | (11 (cp ...) nocase) TEXT "..." | (12 cst ...) union
    ref    = (0 tok) | (1 v);   op as in harness/src/c10.rs dop
-   add    = (id|-1 ((set key value) ...) target sub)
+   add    = (id|-1 ((set key value) ...) target sub off)   off = () | (cursor cursor), cursor = (0 n) | (1 z)
    rows are lists of items (tag h1 h2 h3), flattened; without LIMIT they are compared sorted *)
 From Coq Require Import List ZArith NArith Bool Arith.
 Import ListNotations.
@@ -144,7 +144,11 @@ Definition addq_of_sx (x : sx) : addq :=
   mkadd (sx_onat (sx_nth 0 x))
         (map (fun d => (sx_nat (sx_nth 0 d), sx_nat (sx_nth 1 d), value_of_sx (sx_nth 2 d))) (sx_list (sx_nth 1 x)))
         (sx_nat (sx_nth 2 x))
-        (query_of_sx 3 (sx_nth 3 x)).
+        (query_of_sx 3 (sx_nth 3 x))
+        (match sx_list (sx_nth 4 x) with
+         | [cb; ce] => Some (mkoff (cursor_of_sx cb) (cursor_of_sx ce))
+         | _ => None
+         end).
 
 Definition out_code (o : out) : sx :=
   match o with OOk _ => A 1 | OErr => A 0 | OPanic => A (-1) end.
@@ -218,13 +222,13 @@ Definition run_C08 (x : sx) : sx :=
         L [triple (L [A 0; state_sx s true]) (L [A 0; state_sx s false]) 0]
       else
         let k := known_class s sub in
-        let s2 := spec_delete s v sub in
-        let spec := L [A 1; state_sx s2 false] in
+        let '(s2, o2) := spec_delete s v sub in
+        let spec := L [out_code o2; state_sx s2 false] in
         match eval_text s sub with
         | None => L [triple (L [A (-1)]) spec k; triple (L [A (-1)]) spec k]
         | Some rows =>
-            let s1 := exec_delete s v sub rows in
-            let m := L [A 1; state_sx s1 true] in
+            let '(s1, o1) := exec_delete s v sub rows in
+            let m := L [out_code o1; state_sx s1 true] in
             L [triple m spec k; triple m spec k]
         end
   end.
